@@ -11,6 +11,8 @@ import (
 	"math/rand"
 	"os"
 	"path/filepath"
+	"sort"
+	"reflect"
 	"regexp"
 	"strings"
 	"sync"
@@ -331,6 +333,7 @@ func checkC01(c *Ctx) {
 	if !c01LinkMC(c) {
 		return
 	}
+	c01ListFields(c)
 	c01Dirs(c)
 	c.Set("rule", "case = one gofmt-canonical file through one entry point (bytes compared), or one declaration snippet whose fragment list and attachments are validated by TLC against Link.tla; non-trivial = the input contains comments; distinct by path+entry / snippet text")
 }
@@ -629,4 +632,102 @@ func init() {
 		}
 		return ""
 	}
+}
+
+// ---- every list field of every node type laid out over several lines ----
+
+// c01ListFields takes every list of nodes in every template fragment (found by reflection), puts
+// each element on its own line (with and without trailing / leading comments), prints the tree, and
+// -- where the printed text is gofmt-canonical -- requires that text to round-trip byte for byte.
+func c01ListFields(c *Ctx) {
+	src, err := templateSrc()
+	if err != nil {
+		c.Infra(err.Error())
+		return
+	}
+	minis, err := miniFiles(src)
+	if err != nil {
+		c.Infra(err.Error())
+		return
+	}
+	type job struct {
+		mi, li, variant int
+	}
+	listsOf := func(f *dst.File) []reflect.Value {
+		var out []reflect.Value
+		var ps []nodePos
+		seen := map[dst.Node]bool{}
+		positionsOf(f, &ps, seen)
+		for n := range seen {
+			v := reflect.ValueOf(n).Elem()
+			for i := 0; i < v.NumField(); i++ {
+				fv := v.Field(i)
+				name := v.Type().Field(i).Name
+				if fv.Kind() == reflect.Slice && fv.Type().Elem().Implements(dstNodeType) && fv.Len() >= 1 && name != "Imports" && name != "Unresolved" {
+					out = append(out, fv)
+				}
+			}
+		}
+		// a stable order: by the type and field of the holder and the number of elements
+		sort.SliceStable(out, func(i, j int) bool {
+			return fmt.Sprintf("%v/%d/%T", out[i].Type(), out[i].Len(), out[i].Index(0).Interface()) < fmt.Sprintf("%v/%d/%T", out[j].Type(), out[j].Len(), out[j].Index(0).Interface())
+		})
+		return out
+	}
+	var jobs []job
+	for mi, m := range minis {
+		for li := range listsOf(m) {
+			for v := 0; v < 4; v++ {
+				jobs = append(jobs, job{mi, li, v})
+			}
+		}
+	}
+	var tested, skipped int64
+	var mu sync.Mutex
+	parallel(len(jobs), func(i int) {
+		j := jobs[i]
+		ms, _ := miniFiles(src)
+		f := ms[j.mi]
+		ls := listsOf(f)
+		if j.li >= len(ls) {
+			return
+		}
+		lv := ls[j.li]
+		for k := 0; k < lv.Len(); k++ {
+			d := lv.Index(k).Interface().(dst.Node).Decorations()
+			d.Before, d.After = dst.NewLine, dst.NewLine
+			switch j.variant {
+			case 1:
+				d.End.Append(fmt.Sprintf("// t%d", k))
+			case 2:
+				d.Start.Prepend(fmt.Sprintf("// l%d", k), "\n")
+			case 3:
+				if k%2 == 0 {
+					d.Before = dst.EmptyLine
+				}
+				d.End.Append(fmt.Sprintf("/* b%d */", k))
+			}
+		}
+		text, msg := printFile(f)
+		if msg != "" || !isCanonical([]byte(text)) {
+			mu.Lock()
+			skipped++
+			mu.Unlock()
+			return
+		}
+		key := fmt.Sprintf("list-field|fragment-%d|list-%d|variant-%d", j.mi, j.li, j.variant)
+		c.Eval(key, j.variant > 0)
+		mu.Lock()
+		tested++
+		mu.Unlock()
+		for _, e := range entryPoints("x.go", []byte(text), false) {
+			if e.Err != "" {
+				c.Fail(Finding{Sig: "roundtrip-fails", Input: key, What: e.Entry + ": " + e.Err + "\n" + text, Replay: obj{"kind": "c01snip", "src": text}})
+			} else if !bytes.Equal(e.Out, []byte(text)) {
+				c.Fail(Finding{Sig: "roundtrip-bytes-differ", Input: key, What: e.Entry + ": " + diffAt([]byte(text), e.Out) + "\n" + text, Replay: obj{"kind": "c01snip", "src": text}})
+			}
+		}
+	})
+	c.Set("list_field_layouts_round_tripped", tested)
+	c.Set("list_field_layouts_not_canonical", skipped)
 }
